@@ -247,6 +247,79 @@ func init() {
 			}
 			runtime.GOMAXPROCS(prev)
 		}
+		// cold registries: every registry Filter returns is new, so its first Names / Sources / listing calls happen while
+		// other goroutines already filter it further and lint with it - rounds of exactly that, each with a deadline (a
+		// reader that upgrades to a write lock between another reader's nested read locks never comes back)
+		{
+			rounds := 60
+			if tier() == "thorough" {
+				rounds = 400
+			}
+			stuck := ""
+			for round := 0; round < rounds && stuck == ""; round++ {
+				fr, err := g.Filter(lint.FilterOptions{ExcludeNames: []string{names[round%len(names)]}})
+				if err != nil {
+					continue
+				}
+				var wg sync.WaitGroup
+				var mu sync.Mutex
+				var diffs []string
+				run := func(f func()) {
+					wg.Add(1)
+					go func() {
+						defer wg.Done()
+						defer func() {
+							if p := recover(); p != nil {
+								mu.Lock()
+								diffs = append(diffs, fmt.Sprintf("panic: %v", p))
+								mu.Unlock()
+							}
+						}()
+						f()
+					}()
+				}
+				for k := 0; k < 2; k++ {
+					k := k
+					run(func() { fr.Filter(lint.FilterOptions{IncludeSources: lint.SourceList{lint.LintSource(srcs[(round+k)%len(srcs)])}}) })
+					run(func() { fr.Sources() })
+					run(func() { fr.Names() })
+					run(func() {
+						cc := certs[(round*2+k)%len(certs)]
+						c, err := x509.ParseCertificate(cc.DER)
+						if err != nil {
+							return
+						}
+						got := resultsOf(zlint.LintCertificateEx(c, fr))
+						want := seq[key{0, (round*2 + k) % len(certs)}]
+						for n, v := range got {
+							if w, ok := want[n]; ok && w != v {
+								mu.Lock()
+								diffs = append(diffs, fmt.Sprintf("%s on %s: %v, alone %v", n, cc.File, v, w))
+								mu.Unlock()
+								break
+							}
+						}
+					})
+				}
+				done := make(chan struct{})
+				go func() { wg.Wait(); close(done) }()
+				select {
+				case <-done:
+				case <-time.After(15 * time.Second):
+					stuck = fmt.Sprintf("round %d: a freshly filtered registry used at once by Filter (x2), Sources (x2), Names (x2) and LintCertificateEx (x2) from eight goroutines: the calls have not returned after 15 s", round)
+				}
+				total += 8
+				for _, d := range diffs {
+					out.Violate("C10|cold-registry-differs", "calls on a freshly filtered registry made at the same time: "+d, map[string]interface{}{"round": round}, nil, nil)
+				}
+			}
+			if stuck != "" {
+				out.Violate("C10|deadlock-on-cold-registry", stuck, map[string]interface{}{"schedule": "fr := global.Filter(ExcludeNames:[one name]); then concurrently 2x fr.Filter(IncludeSources), 2x fr.Sources(), 2x fr.Names(), 2x LintCertificateEx(cert, fr)", "gomaxprocs": runtime.GOMAXPROCS(0)},
+					"all calls return", "blocked for ever")
+				out.Stats["concurrent_lint_calls"] = total
+				return out.Emit()
+			}
+		}
 		// heavy objects under processor oversubscription: a revocation list as large as big issuers publish (a repeated
 		// serial number near its end, the smallest serial last) linted by 16 goroutines on one processor, each on its own
 		// parsed copy - a call that gets a sixteenth of a processor reports what the same call reports alone
